@@ -37,7 +37,9 @@ package interp
 //@   let c: assert_go_constant_Value(rvIface(n.rval))
 //@   let isC: n.rval.IsValid() && assertok_go_constant_Value(rvIface(n.rval))
 //@   let k: n.typ.TypeOf().Kind()
-//@   panics when isC && constKind(c) == 3 && !inRangeK(6, constInt(c)) && !(isUnsignedKind(k) && inRangeK(k, constInt(c))) && !isFloatKind(k) && !isComplexKind(k)
+//@   requires [assume] constant-agrees-with-node-type: isC ==> (constKind(c) == 1 ==> k == reflect.Bool || k == reflect.Interface) && (constKind(c) == 2 ==> k == reflect.String || k == reflect.Interface) && (constKind(c) >= 3 ==> isIntKind(k) || isFloatKind(k) || isComplexKind(k) || k == reflect.Interface) && constKind(c) >= 1 && constKind(c) <= 5
+//@   panics when isC && constKind(c) == 3 && ((isIntKind(k) && !inRangeK(k, constInt(c))) || (k == reflect.Interface && !inRangeK(6, constInt(c))))
+//@   panics when isC && constKind(c) == 5 && !isComplexKind(k) && k != reflect.Interface
 //@   ensures float32-rounded-once: isC && constKind(c) == 4 && k == reflect.Float32 ==> rvFloat(n.rval) == constF32(c)
 //@   ensures float64-rounded-once: isC && constKind(c) == 4 && k == reflect.Float64 ==> rvFloat(n.rval) == constF64(c)
 //@   ensures complex64-parts-rounded-once: isC && constKind(c) == 5 && k == reflect.Complex64 ==> rvComplex(n.rval) == croundKind(reflect.Complex64, ccomplex(constF32(constReal(c)), constF32(constImag(c))))
